@@ -43,9 +43,87 @@ def check(prog: Program, tier: str) -> Result:
     _tmp = Result("C05", "", "")
     _c05._r5_6(prog, _tmp)
     res.adopt(_tmp, {"R5.6"}, "R7.7", "safe mode / preserve only protect the surface if no rule result is replayed from a memo that ignores the preserve set")
-    res.floors.update({"R7.1": 14, "R7.2": 8, "R7.3": 4, "R7.4": 4})
+    _r7_8(prog, res)
+    res.floors.update({"R7.1": 14, "R7.2": 8, "R7.3": 4, "R7.4": 4, "R7.8": 2})
     res.analysed.update(stats)
     return res
+
+
+def _r7_8(prog: Program, res: Result) -> None:
+    """Matches are not nodes.  core.walk_sequence yields, per statement of a run, a MATCH tuple (the node first, then the
+    wildcard bindings).  A guard that asks `isinstance(m, ast.FunctionDef)`, `core.filter_nodes(matches, (ast.FunctionDef, ..))`,
+    `core.walk(m, ..)` or `match_template(m, ..)` of the match itself is dead code - a tuple is never an instance of a node
+    class - so the rule goes on where it meant to stop: missing_context_manager moved every following statement, function and
+    class definitions included, into the `with` block (and they are then no top-level definitions any more, which is all
+    safe mode protects).  Instance: every use of a match variable of a walk_sequence loop (an element of the loop target that
+    is not destructured, or its starred rest, or an element drawn from that) in a node position of those four calls, before
+    the variable is rebound to the projected nodes (`[m[0] for m in ms]`, `m.root`)."""
+    n = 0
+    for fn in prog.funcs.values():
+        for lp in walk_own(fn.node):
+            if not isinstance(lp, (ast.For, ast.AsyncFor)):
+                continue
+            it, tg = lp.iter, lp.target
+            if isinstance(it, ast.Call) and isinstance(it.func, ast.Name) and it.func.id == "enumerate" and it.args and isinstance(tg, ast.Tuple) and len(tg.elts) == 2:
+                it, tg = it.args[0], tg.elts[1]
+            if not (isinstance(it, ast.Call) and (prog.dotted(it.func) or "").split(".")[-1] == "walk_sequence" and isinstance(tg, ast.Tuple)):
+                continue
+            single, lists = set(), set()
+            for e in tg.elts:
+                if isinstance(e, ast.Name):
+                    single.add(e.id)
+                elif isinstance(e, ast.Starred) and isinstance(e.value, ast.Name):
+                    lists.add(e.value.id)
+            if not (single or lists):
+                continue
+            # first rebinding of each variable inside the loop (by line)
+            rebound = {}
+            for st in ast.walk(lp):
+                if isinstance(st, ast.Assign):
+                    for t in st.targets:
+                        if isinstance(t, ast.Name) and t.id in single | lists and st is not lp:
+                            rebound[t.id] = min(rebound.get(t.id, 10 ** 9), st.lineno)
+
+            def is_match_expr(e: ast.AST, at_line: int, env: dict) -> bool:
+                if isinstance(e, ast.Name):
+                    if e.id in env:
+                        return env[e.id]
+                    return e.id in single and at_line <= rebound.get(e.id, 10 ** 9)
+                return False
+
+            def is_match_list(e: ast.AST, at_line: int) -> bool:
+                return isinstance(e, ast.Name) and e.id in lists and at_line <= rebound.get(e.id, 10 ** 9)
+            for c in ast.walk(lp):
+                if not isinstance(c, ast.Call):
+                    continue
+                d = (prog.dotted(c.func) or "").split(".")[-1]
+                line = c.lineno
+                # element variables of comprehensions / generator expressions over a match list
+                env = {}
+                a = parent(c)
+                while a is not None and a is not lp:
+                    if isinstance(a, (ast.GeneratorExp, ast.ListComp, ast.SetComp)):
+                        for g in a.generators:
+                            if isinstance(g.target, ast.Name):
+                                env[g.target.id] = is_match_list(g.iter, line)
+                    a = parent(a)
+                hit = None
+                if d == "isinstance" and len(c.args) == 2 and is_match_expr(c.args[0], line, env) and "ast." in norm(c.args[1]):
+                    hit = c.args[0]
+                elif d == "filter_nodes" and c.args and is_match_list(c.args[0], line):
+                    hit = c.args[0]
+                elif d in ("walk", "match_template") and c.args and is_match_expr(c.args[0], line, env):
+                    hit = c.args[0]
+                elif d in ("isinstance", "filter_nodes", "walk", "match_template") and c.args and isinstance(c.args[0], ast.Name) and (c.args[0].id in single | lists or c.args[0].id in env):
+                    n += 1
+                    res.ok("R7.8", fn.loc(c), fn.fq, short(c, 70), "applied to the projected nodes")
+                    continue
+                if hit is not None:
+                    n += 1
+                    res.bad("R7.8", fn.loc(c), fn.fq, short(c, 70),
+                            f"`{norm(hit)}` is a walk_sequence MATCH (a tuple), not a node: this test can never succeed, the guard is dead and the rule goes on where it meant to stop")
+    if n == 0:
+        raise AnalysisError("R7.8: no node test on the items of a walk_sequence loop found")
 
 
 def _scope_of_iter(prog: Program, fn: Func, it: ast.AST, env: Dict[str, str]) -> Optional[str]:
@@ -300,6 +378,9 @@ def _unpacker(prog: Program, res: Result) -> None:
 from ..selftest import Variant  # noqa: E402
 
 VARIANTS = [
+    Variant("guards-applied-to-the-match-tuples", "FIRE", "fixes",
+            "        nodes = [tup[0] for tup in nodes]  # The statements themselves, not their matches\n", "", "R7.8",
+            extra=[("fixes", "            continue\n\n        while nodes:\n            if core.walk(nodes[-1], target_template):", "            continue\n\n        nodes = [tup[0] for tup in nodes]\n        while nodes:\n            if core.walk(nodes[-1], target_template):")]),
     Variant("pointless-statements-without-preserve", "FIRE", "fixes",
             "def delete_pointless_statements(source: str, preserve: Collection[str] = frozenset()) -> str:", "def delete_pointless_statements(source: str, preserved: Collection[str] = frozenset()) -> str:", "R7.6",
             extra=[("fixes", "    underscore_is_a_variable = \"_\" in preserve or any(", "    underscore_is_a_variable = \"_\" in preserved or any("),
